@@ -43,7 +43,7 @@ func runGate(c *vp.Child) {
 	if c.Batch == 0 {
 		c.Feature("functions-enumerated", int64(len(paths)))
 	}
-	nTuples := c.Pick(6, 48)
+	nTuples := c.Pick(4, 32)
 	fresh := func() bool {
 		se.close()
 		se, err = newSession(fx)
@@ -133,9 +133,14 @@ func runGate(c *vp.Child) {
 						if strings.HasPrefix(name, "debug.") || se.state() != se.base {
 							se.dirty = true
 						}
+						// a process started by an allowed call (io.popen without
+						// iosafe) may still be writing: wait for it before restoring
+						if st := childrenState(); st != "none" {
+							c.Feature("accepted-call-started-process", 1)
+						}
 						fx.restore()
 					}
-					if c.WantSample() && c.Batch < 2 && s == 9 && res.refused && hostile && (ci == 1 || ci == 3) {
+					if c.WantSample() && c.Batch == 0 && s == 9 && res.refused && hostile && (ci == 1 || ci == 3) {
 						c.Sample(map[string]interface{}{"function": name, "required": setName(s), "spelling": spelling,
 							"arguments": strings.Join(exprs, ", "), "result": "refused: " + res.post + res.out.ErrMsg, "context_status": res.out.CtxStatus})
 					}
